@@ -1148,3 +1148,5 @@ B('C09', 'heuristic branch assigns the function part without the bound-variable 
   "                        if bd_vars and t.fun.has_vars(bd_vars):\n                            raise MatchException(trace)\n", "", 'C09.N12', 'free-of-stand-ins')
 B('C09', 'stand-in chosen against the two bodies only', 'logic/matcher.py',
   "                for s in inst.values():\n                    var_names.extend(v.name for v in s.get_vars())\n", "", 'C09.N13', 'avoid-list-includes-instantiation')
+B('C20', 'separator appended to whatever line comes last', 'imperative/com.py',
+  "            for line in reversed(lines):\n                if line['ty'] == 'com':\n                    line['str'] += ';'\n                    return\n            raise AssertionError", "            lines[-1]['str'] += ';'", 'C20.P9', 'add_str')
